@@ -406,6 +406,10 @@ wrapped_interval<Number>::mk_winterval(Number lb, Number ub,
     CRAB_WARN(ub,
               " does not fit into a wrapint. Returned top wrapped interval");
     return wrapped_interval<Number>::top();
+  } else if (ub - lb >=
+             Number(wrapint::get_unsigned_max(width).get_unsigned_bignum())) {
+    // [lb, ub] contains a representative of every value modulo 2^width
+    return wrapped_interval<Number>::top();
   } else {
     return wrapped_interval<Number>(wrapint(lb, width), wrapint(ub, width));
   }
